@@ -3,7 +3,7 @@ from symx.api import H
 from harness import c05 as C5
 from spec import enc
 from spec import elf_layout as L
-from harness.elfkit import Image
+from harness.elfkit import Image, open_elf
 from harness.dwarfkit import unit_header, abbrev_table
 
 PROPERTY = 'C11'
@@ -109,7 +109,7 @@ def h_containers(ctx):
         big = (bplain, bcomp)
     data, pairs = _image(ctx, cls, little, container, info, ab, mips=cfg.get('mips', False), big=big)
     ctx.use_zlib_model(pairs)
-    elf = EF.ELFFile(ctx.stream(data))
+    elf = open_elf(ctx, data)
     ctx.check('containers/%s/has_dwarf_info' % container, bool(elf.has_dwarf_info()))
     di = elf.get_dwarf_info()
     got = _view(di)
@@ -139,7 +139,7 @@ def h_reject(ctx):
         magic = ctx.bytes('magic', 4)
     data, pairs = _image(ctx, cls, little, container, info, ab, declared=declared, magic=magic)
     ctx.use_zlib_model(pairs)
-    elf = EF.ELFFile(ctx.stream(data))
+    elf = open_elf(ctx, data)
     try:
         di = elf.get_dwarf_info()
         got = _view(di)
@@ -171,7 +171,7 @@ def h_short_zdebug(ctx):
     img.section('.zdebug_info', sh_type=1, sh_offset=off, sh_size=n)
     img.add_shstrtab()
     ctx.use_zlib_model([])
-    elf = EF.ELFFile(ctx.stream(img.build()))
+    elf = open_elf(ctx, img.build())
     try:
         elf.get_dwarf_info()
     except (EXC.ELFError, AssertionError):
@@ -208,7 +208,7 @@ def h_presence(ctx):
     else:
         img.add_shstrtab()
     data = img.build()
-    elf = EF.ELFFile(ctx.stream(data))
+    elf = open_elf(ctx, data)
     ctx.outcome('ok')
     # each question also as the very first one asked of a freshly opened file
     ctx.check_eq('presence/strict/first-query/%s' % present, bool(EF.ELFFile(ctx.stream(data)).has_dwarf_info(strict=True)), bool(present[0] or present[1]))
